@@ -276,7 +276,10 @@ class Ref:
                 first = first or r
             return ("union-holds-no-alternative", path)
         if k == "ann":
-            return self.conforms(v, t[1], reg, path)
+            r = self.conforms(v, t[1], reg, path)
+            if r and t[1][0] in ("tuple", "list") and not r[0].endswith("@annotated") and r[1] == path:
+                return (r[0] + "@annotated", r[1])  # the refined symbol itself is ill-typed (not something below it)
+            return r
         raise ValueError(k)
 
     # ------------------------------------------------------------ refinements
